@@ -90,8 +90,47 @@ def loopStep (local_ : Nat) (st : LoopSt) (d : Nat) : LoopSt :=
           { st with dcs := setDc st.dcs d c3, selected := sel', extra := extra',
                     dcCount := st.dcCount - 1 }
 
+/-- The fallback sweep over one data centre (current tree, after the `fix:` commit for D11): at
+most one full turn of the cycler, taking every node that is neither the local node nor selected
+yet, until `n` are selected. -/
+def sweepDc (local_ n : Nat) : Nat → Cycler → List Nat → Cycler × List Nat
+  | 0, c, sel => (c, sel)
+  | k + 1, c, sel =>
+    if sel.length ≥ n then (c, sel)
+    else match c.next with
+      | (some node, c') =>
+        if node = local_ ∨ sel.contains node then sweepDc local_ n k c' sel
+        else sweepDc local_ n k c' (sel ++ [node])
+      | (none, c') => sweepDc local_ n k c' sel
+
+/-- The fallback sweep over all data centres, in map order. -/
+def sweep (local_ n : Nat) : Dcs → List Nat → Dcs × List Nat
+  | [], sel => ([], sel)
+  | (d, c) :: rest, sel =>
+    let r := sweepDc local_ n c.nodes.length c sel
+    let r2 := sweep local_ n rest r.2
+    ((d, r.1) :: r2.1, r2.2)
+
 /-- `select_n_nodes`.  `choice` is used only when there are more eligible data centres than `n`. -/
 def selectN (local_ localDc n total : Nat) (dcs : Dcs) (choice : List Nat) : Res × Dcs :=
+  let localLen := match getDc dcs localDc with | some c => c.nodes.length | none => 0
+  let numOutside := total - localLen
+  let canSkip := decide (numOutside ≥ n)
+  if canSkip ∧ dcs.length = 0 then (.panic, dcs) else
+  let numDcs := if canSkip then dcs.length - 1 else dcs.length
+  let filtered := (dcs.filter (fun p => !(canSkip && p.1 == localDc))).map (·.1)
+  let (extra0, selectedDcs) := if numDcs ≤ n then (n - numDcs, filtered) else (0, choice)
+  let st0 : LoopSt := { dcs := dcs, selected := [], extra := extra0, dcCount := selectedDcs.length }
+  let st := selectedDcs.foldl (loopStep local_) st0
+  if st.panicked then (.panic, st.dcs)
+  else if st.selected.length ≥ n then (.ok st.selected, st.dcs)
+  else
+    -- a skipped candidate of the extra-node loop is not replaced there: sweep every data centre once more
+    let r := sweep local_ n st.dcs st.selected
+    if r.2.length ≥ n then (.ok r.2, r.1) else (.notEnough r.2.length n, r.1)
+
+/-- The pinned `select_n_nodes` (defect D11): no fallback sweep.  Kept for the negation witness. -/
+def selectNLegacy (local_ localDc n total : Nat) (dcs : Dcs) (choice : List Nat) : Res × Dcs :=
   let localLen := match getDc dcs localDc with | some c => c.nodes.length | none => 0
   let numOutside := total - localLen
   let canSkip := decide (numOutside ≥ n)
